@@ -31,6 +31,7 @@ pub mod ribmetrics;
 pub mod rotorib;
 pub mod reconfunits;
 pub mod vribquery;
+pub mod configload;
 
 /// A pause-point handler installed per thread by a harness.
 pub type PointFn = Arc<dyn Fn(&'static str) + Send + Sync>;
